@@ -215,6 +215,14 @@ def value_of(e, env):
 
             return {ast.LShift: _op.lshift, ast.RShift: _op.rshift, ast.BitAnd: _op.and_, ast.BitOr: _op.or_, ast.BitXor: _op.xor}[type(e.op)](l, r) if r >= 0 or not isinstance(e.op, (ast.LShift, ast.RShift)) else _NOVAL
         return _NOVAL
+    if isinstance(e, ast.Call) and not e.keywords and isinstance(e.func, ast.Attribute) and e.func.attr == "encode" and len(e.args) <= 1 and all(isinstance(x, ast.Constant) and isinstance(x.value, str) for x in e.args):
+        v = value_of(e.func.value, env)
+        if isinstance(v, str):
+            try:
+                return v.encode(*[x.value for x in e.args])
+            except (UnicodeError, LookupError):
+                return _RAISES
+        return _NOVAL
     if isinstance(e, ast.Call) and not e.keywords and not e.args and isinstance(e.func, ast.Attribute) and e.func.attr == "bit_length":
         v = value_of(e.func.value, env)
         return v.bit_length() if isinstance(v, int) else _NOVAL
@@ -239,7 +247,7 @@ def value_of(e, env):
         v = value_of(e.args[0], env)
         fn = ast.unparse(e.func)
         try:
-            if fn == "len" and isinstance(v, (list, dict, str)):
+            if fn == "len" and isinstance(v, (list, dict, str, bytes)):
                 return len(v)
             if isinstance(v, (int, float)) and not isinstance(v, bool):
                 import math as _m
@@ -272,6 +280,8 @@ def _table_entry(e, env):
 
 
 def _cmp(a, op, b):
+    if isinstance(op, (ast.In, ast.NotIn)) and isinstance(b, (list, dict, set, tuple, str)) and len(b) == 0 and not isinstance(b, str):
+        return isinstance(op, ast.NotIn)  # nothing is a member of an empty container
     if a is _NOVAL or b is _NOVAL:
         return UNKNOWN
     try:
